@@ -5,6 +5,54 @@ import DesperProofs.Lemmas.WorldDead
 namespace Desper.World
 open Desper
 
+theorem mem_insertSorted (l : List Obj) (o x : Obj) : x ∈ insertSorted l o ↔ x ∈ l ∨ x = o := by
+  unfold insertSorted
+  split
+  · rename_i h
+    have : o ∈ l := by simpa using h
+    constructor
+    · exact fun hx => .inl hx
+    · rintro (hx | hx)
+      · exact hx
+      · subst hx; exact this
+  · have := List.takeWhile_append_dropWhile (p := fun y => decide (y < o)) (l := l)
+    constructor
+    · intro hx
+      simp only [List.mem_append, List.mem_singleton] at hx
+      rcases hx with (hx | hx) | hx
+      · exact .inl (this ▸ List.mem_append_left _ hx)
+      · exact .inr hx
+      · exact .inl (this ▸ List.mem_append_right _ hx)
+    · rintro (hx | hx)
+      · rw [← this] at hx
+        simp only [List.mem_append, List.mem_singleton] at hx ⊢
+        rcases hx with hx | hx
+        · exact .inl (.inl hx)
+        · exact .inr hx
+      · simp [hx]
+
+theorem mem_insertSorted_self (l : List Obj) (o : Obj) : o ∈ insertSorted l o :=
+  (mem_insertSorted l o o).mpr (.inr rfl)
+
+theorem nodup_insertSorted (l : List Obj) (o : Obj) (h : l.Nodup) : (insertSorted l o).Nodup := by
+  unfold insertSorted
+  split
+  · exact h
+  · rename_i hc
+    have hn : o ∉ l := by simpa using hc
+    have hsplit := List.takeWhile_append_dropWhile (p := fun y => decide (y < o)) (l := l)
+    rw [← hsplit] at h hn
+    rw [List.nodup_append] at h
+    simp only [List.mem_append, not_or] at hn
+    rw [List.append_assoc, List.nodup_append]
+    refine ⟨h.1, ?_, ?_⟩
+    · rw [List.singleton_append, List.nodup_cons]; exact ⟨hn.2, h.2.1⟩
+    · intro a ha b hb
+      simp only [List.singleton_append, List.mem_cons] at hb
+      rcases hb with rfl | hb
+      · intro e; subst e; exact hn.1 ha
+      · exact h.2.2 a ha b hb
+
 theorem callCb_eq {U : Universe} (hn : NoRaise U) (s : St) (o : Obj) (m : String) (e : Entry) :
     callCb U s o m e =
       ({ s with calls := Dict.set s.calls (o, m) ((Dict.get? s.calls (o, m)).getD 0 + 1),
